@@ -1,5 +1,4 @@
 import re
-import string
 import functools
 from typing import Union
 
@@ -37,6 +36,13 @@ UVL_OPERATORS: dict[ASTOperation, str] = {ASTOperation.AND: "&",
                                           ASTOperation.CEIL: 'ceil',
                                           ASTOperation.XOR: ASTOperation.XOR.value  # Not soported
                                           }
+
+
+# Words with a meaning of their own in UVL: an identifier spelled like one of them has to be quoted.
+UVL_KEYWORDS = frozenset({
+    'include', 'namespace', 'imports', 'as', 'features', 'cardinality', 'constraint', 'constraints',
+    'sum', 'avg', 'len', 'floor', 'ceil', 'String', 'Integer', 'Real', 'Boolean', 'Arithmetic',
+    'Type', 'or', 'alternative', 'optional', 'mandatory', 'true', 'false'})
 
 
 class UVLWriter(ModelToText):
@@ -162,8 +168,6 @@ def safename(name: str) -> str:
 def safe_simple_name(name: str) -> str:
     if name.startswith("'") and name.endswith("'"):
         return name
-    return f'"{name}"' if any(char not in safecharacters() for char in name) else name
-
-
-def safecharacters() -> str:
-    return string.ascii_letters + string.digits + '_'
+    if re.fullmatch(r'[A-Za-z][A-Za-z0-9_]*', name) and name not in UVL_KEYWORDS:
+        return name
+    return f'"{name}"'
